@@ -272,9 +272,10 @@ def main(argv):
     mod = load_module(spec["prop"])
     if "B" in ctx.mode and not canary_boundscheck():
         ctx.error("mode B: the bounds-check canary kernel did not raise IndexError")
+    # (before any line recorder starts: a location met while its file is not yet watched is disabled for good)
+    ctx.decoys = make_decoys()
     if hasattr(mod, "setup"):
         mod.setup(ctx)
-    ctx.decoys = make_decoys()
     cover_files = sorted({a[0] for a in getattr(mod, "ANCHORS", [])} | set(spec.get("cover_files") or []))
     if os.environ.get("VERIF_COVER_ALL") == "1":
         from vf import cover
